@@ -258,6 +258,9 @@ let () =
            cfg := cfg_of (st = "empty") (mc = "ok");
            Printf.printf "%s\t%s\tok\n" id obs
          | _ -> Printf.printf "%s\t?\tok\n" id)
+      | [id; script; obs] when String.length script >= 6 && String.sub script 0 6 = "typed:" ->
+        (* typed engines: no heap model; the specification itself is the prediction *)
+        Printf.printf "%s\tstable\t%s\n" id (if obs = "stable" then "ok" else "fail:typed_child_changed")
       | [id; script; obs] ->
         (try
            let (m, legal) = run_model script in
